@@ -192,3 +192,30 @@ Proof.
   intros [A | A] [B | B]; unfold picard_conv; rewrite A, B; cbn;
     repeat rewrite andb_false_r; reflexivity.
 Qed.
+
+(* ---- where the Newton iterate ends up (unit directions) ------------------------------------- *)
+(* without a line search every consumed residual evaluation is one full step *)
+Lemma newton_pos_no_search atol rtol ms obs nr0 : forall iters p nr x c v,
+  newton_loop atol rtol false ms obs nr0 iters p nr = Ret c v ->
+  (newton_pos atol rtol false ms obs nr0 iters p nr x == x - inject_Z (Z.of_nat c - Z.of_nat p))%Q /\ (p <= c)%nat.
+Proof.
+  induction iters as [|it IH]; intros p nr x c v H; cbn [newton_loop newton_pos] in *; [discriminate|].
+  destruct (conv atol rtol nr nr0).
+  - injection H as <- <-. split; [|lia]. rewrite Z.sub_diag. change (inject_Z 0) with 0%Q. ring.
+  - destruct (IH (S p) (obs p) (x - 1)%Q c v H) as [E L]. split; [|lia].
+    rewrite E. rewrite Nat2Z.inj_succ. unfold Z.succ.
+    replace (Z.of_nat c - Z.of_nat p)%Z with ((Z.of_nat c - (Z.of_nat p + 1)) + 1)%Z by lia.
+    rewrite inject_Z_plus. change (inject_Z 1) with 1%Q. ring.
+Qed.
+
+(* with a line search a step is never longer than the full step and never shorter than the last cut-back *)
+Lemma ls_step_bounds t ms : (t <= ms)%nat -> (0 <= ls_step t <= 1)%Q.
+Proof.
+  intros _. destruct t as [|k]; cbn [ls_step]; [split; discriminate|].
+  assert (P : (0 < 2 ^ Z.of_nat k)%Z) by (apply Z.pow_pos_nonneg; lia).
+  assert (Q1 : (1 <= 2 ^ Z.of_nat k)%Z) by lia.
+  assert (PQ : (0 < inject_Z (2 ^ Z.of_nat k))%Q) by (change 0%Q with (inject_Z 0); rewrite <- Zlt_Qlt; exact P).
+  split.
+  - apply Qle_shift_div_l; [exact PQ|]. rewrite Qmult_0_l. discriminate.
+  - apply Qle_shift_div_r; [exact PQ|]. rewrite Qmult_1_l. change 1%Q with (inject_Z 1). rewrite <- Zle_Qle. exact Q1.
+Qed.
